@@ -18,21 +18,47 @@ from lib.ctx import MachineryError
 from checks.c11 import plans_from_tlc
 from harness.enc import cases
 
-def model_check(ctx):
-    r = tlc.run("MCEncLz", cfg="MCEncLz.cfg" if ctx.quick else "MCEncLzT.cfg", workers=4, timeout=1500, coverage=ctx.quick)
-    ctx.add_tlc("MCEncLz", r, exhaustive=True)
-    if r.violation:
-        ctx.violation("model:MCEncLz:" + r.violation, r.out[-3000:], dict(kind="tlc_counterexample"))
-    ctx.log("MCEncLz:", r.summary())
-    b = tlc.run("MCEncLz", cfg="MCEncLzBroken.cfg", workers=2, timeout=300)
-    ctx.tlc_runs.append(dict(name="MCEncLzBroken(expected violation)", **b.summary()))
-    if b.violation != "WindowEquiv":
-        raise MachineryError("non-vacuity run MCEncLzBroken did not violate WindowEquiv: %s" % (b.summary(),))
-    r = tlc.run("MCEncLzma2", cfg="MCEncLzma2.cfg" if ctx.quick else "MCEncLzma2T.cfg", workers=4, timeout=1500)
-    ctx.add_tlc("MCEncLzma2", r, exhaustive=True)
-    if r.violation:
-        ctx.violation("model:MCEncLzma2:" + r.violation, r.out[-3000:], dict(kind="tlc_counterexample"))
-    ctx.log("MCEncLzma2:", r.summary())
+def model_check_runs(quick):
+    """The (M) runs; executed in a thread while the cases run.  -> list of (name, TlcResult, kind)"""
+    out = []
+    r = tlc.run("MCEncLz", cfg="MCEncLz.cfg" if quick else "MCEncLzT.cfg", workers=3, timeout=1500)
+    out.append(("MCEncLz", r, "mc"))
+    b = tlc.run("MCEncLz", cfg="MCEncLzBroken.cfg", workers=1, timeout=300)
+    out.append(("MCEncLzBroken(expected violation)", b, "broken:WindowEquiv"))
+    r = tlc.run("MCEncLzma2", cfg="MCEncLzma2.cfg" if quick else "MCEncLzma2T.cfg", workers=3, timeout=1500)
+    out.append(("MCEncLzma2", r, "mc"))
+    return out
+
+def model_check_apply(ctx, runs):
+    for name, r, kind in runs:
+        if kind == "mc":
+            ctx.add_tlc(name, r, exhaustive=True)
+            if r.violation:
+                ctx.violation("model:%s:%s" % (name, r.violation), r.out[-3000:], dict(kind="tlc_counterexample"))
+            ctx.log(name + ":", r.summary())
+        else:
+            ctx.tlc_runs.append(dict(name=name, **r.summary()))
+            want = kind.split(":", 1)[1]
+            if not r.violation or (want != "*" and r.violation != want):
+                raise MachineryError("non-vacuity run %s did not violate %s: %s" % (name, want, r.summary()))
+
+class Background:
+    """Run fn() in a thread; .result() re-raises."""
+    def __init__(self, fn):
+        import threading
+        self.out = None; self.exc = None
+        def go():
+            try:
+                self.out = fn()
+            except BaseException as x:
+                self.exc = x
+        self.t = threading.Thread(target=go, daemon=True)
+        self.t.start()
+    def result(self):
+        self.t.join()
+        if self.exc:
+            raise self.exc
+        return self.out
 
 def gen_plans(ctx, seeds):
     plans = []
@@ -61,7 +87,7 @@ def build_jobs(ctx, plans, want, first_full=None):
     for pi, plan in enumerate(plans):
         inputs = cases.inputs_for(plan, pi, ctx.tier, ctx.rng)
         if first_full is not None and pi >= first_full:
-            inputs = [x for k, x in enumerate(inputs) if (k + pi) % 2 == 0]
+            inputs = [x for k, x in enumerate(inputs) if (k + pi) % 3 == 0]
         for ii, inp in enumerate(inputs):
             big = inp["n"] > asan_max or int(plan["preset"]) >= 7 and plan["entry"] in ("easy", "easy_buffer", "stream_mt")
             jobs.append(dict(idx=len(jobs), plan=plan, inp=inp, seed=ctx.rng.randrange(1 << 30),
@@ -73,16 +99,17 @@ def key_of(label, e, idx):
     return "trace:%s:%s" % (entry, e.get("e", "?") if e.get("e") != "Chunk" else "Chunk-" + str(e.get("kind")))
 
 def run(ctx):
-    model_check(ctx)
-    plans = gen_plans(ctx, [0] if ctx.quick else [0] + [ctx.seed * 100 + k for k in range(1, 11)])
+    plans = gen_plans(ctx, [0] if ctx.quick else [0] + [ctx.seed * 100 + k for k in range(1, 9)])
     ctx.log("plans from TLC: %d" % len(plans))
     build.lib("asan"); build.lib("plain")
-    jobs = build_jobs(ctx, plans, {"lz", "bias"}, first_full=None if ctx.quick else 520)
+    jobs = build_jobs(ctx, plans, {"lz", "bias"}, first_full=None if ctx.quick else 260)
     # big jobs first so that the pool is balanced
     order = sorted(range(len(jobs)), key=lambda k: -jobs[k]["inp"]["n"])
     t = time.time()
+    mc = Background(lambda: model_check_runs(ctx.quick))        # (M) runs overlap with the case execution
     results = cases.run_all([jobs[k] for k in order], procs=4 if ctx.quick else 6, workdir=ctx.workdir)
     ctx.log("executed %d cases (%d encoder runs) in %.1fs" % (len(results), sum(r["encs"] for r in results), time.time() - t))
+    model_check_apply(ctx, mc.result())
     l1, l2 = [], []
     nb = 0
     for r in results:
